@@ -1,4 +1,4 @@
-import CacheVerif.Proofs.ProtoData
+import CacheVerif.Proofs.ProtoLin
 import CacheVerif.Proofs.SlotMapHindsight
 import CacheVerif.Props.C11
 /-!
@@ -17,9 +17,16 @@ Mechanised parts (all schedules, any number of goroutines):
 * **sequential level (M3)**: `Map` refines the builtin map for every hash/seed/hint/history (`Props/C11`).
 Every protocol-level trace of the real code under the cooperative scheduler is a run of M4a (trace
 correspondence), and every explored history of the real `Map` is judged by the Lean linearizability checker.
-**Partial**: the composition of these layers into one linearizability theorem for M4a (helping step of `Clear` for
-writers that are past their checks, reader hindsight across table generations) is argued in DESIGN.md §4.3, not
-mechanised.
+* **linearizability of M4a** (`C03_C04_writer_linearizable`, `C03_C04_load_hindsight`, for every schedule, any number
+  of goroutines, any layout): every completed writing call has a linearization step inside the call — its own commit
+  (or lock-protected hit) on the current table, where the abstract content changes exactly as the builtin-map
+  semantics `specDc` says and the call returns what it says; or, if `Clear` retired its table after it had passed
+  its re-checks, the `Clear` publish step, immediately before which it is linearized (the helping step: `Clear`
+  locks no bucket); every lookup returns the abstract binding of a state visited during the call (or of the
+  virtual state between a helped writer and its `Clear`).
+**Partial**: M4a's chain read is one atomic step (justified by the M4b hindsight theorems above — the composition
+of the two models is argued in DESIGN.md §4.3, not mechanised); from "every call has a linearization step" to the
+Herlihy–Wing permutation definition is the standard argument.
 -/
 namespace Props.C03
 open Model.SlotMap Proofs.SlotMapHindsight
@@ -54,7 +61,7 @@ theorem C03_solo_reader (g : G K V) (k : K) (ri : RI top g) :
 
 /-! ### protocol level (M4a): what a resize and a commit do to the abstract content -/
 section proto
-open Model.Proto Proofs.ProtoData
+open Model.Proto Proofs.ProtoData Proofs.ProtoLin
 variable {K V : Type} [DecidableEq K] (p : Params K)
 
 /-- **no entry is lost, duplicated or resurrected by a concurrent grow or shrink**: publishing the new table does
@@ -91,6 +98,77 @@ theorem C03_no_writer_in_copied_bucket (hmin : 0 < p.minLen) (s : Model.Proto.St
     (r u : Model.Proto.Tid) (c : Nat) (hc : copyC (s.l r) = some c) (hp : pastChk (s.l u).pc = true)
     (ht : (s.l u).tbl = (s.l r).rtbl) : c ≤ (s.l u).bi :=
   (no_writer_in_copied_bucket p hmin s h r u c hc hp ht).1
+
+/-- **linearizability of every writing call** (`Store`, `LoadOrStore`, `LoadAndStore`, `LoadOrCompute`, `Compute`,
+`LoadAndDelete`, `Delete` = `doCompute k f loadIfExists computeOnly`), for every schedule: a call that started
+during `mid` … and returned `(a, b)` has a step inside `mid` at which it takes effect atomically according to the
+builtin-map semantics `specDc`: (1) its own commit / lock-protected hit on the current table; or (2) a `Clear`
+publish by another thread that retired its table after it had passed its re-checks — it is linearized immediately
+before that `Clear`; or (3) the lock-free fast-path hit, whose value is a legal lookup answer. -/
+theorem C03_C04_writer_linearizable (hmin : 0 < p.minLen) (pre mid : List (Model.Proto.Tid × Choice K V))
+    (s0 s' : Model.Proto.St K V) (h0 : Model.Proto.run p (Model.Proto.init p) pre = some s0)
+    (h1 : Model.Proto.run p s0 mid = some s') (t : Model.Proto.Tid)
+    (k : K) (f : Option V → V × Bool) (lie co : Bool) (a : Option V) (b : Bool)
+    (hstart : (s0.l t).pc = .dcFast ∨ (s0.l t).pc = .dcLoadTable)
+    (hop : (s'.l t).op = some (.dc k f lie co)) (hret : (s'.l t).pc = .ret)
+    (hres : (s'.l t).result = some (.val a b)) :
+    (∃ e ∈ events p s0 mid, e.tid = t ∧ ((e.pre.l t).pc = .dcCommit ∨ (e.pre.l t).pc = .dcScan) ∧
+        (e.pre.l t).tbl = e.pre.g.cur ∧ (e.pre.l t).op = some (.dc k f lie co) ∧
+        absGet e.post.g k = (specDc f lie co (absGet e.pre.g k)).1 ∧
+        (∀ k', k' ≠ k → absGet e.post.g k' = absGet e.pre.g k') ∧
+        a = (specDc f lie co (absGet e.pre.g k)).2.1 ∧ b = (specDc f lie co (absGet e.pre.g k)).2.2) ∨
+    (∃ e ∈ events p s0 mid, e.tid ≠ t ∧ HelpAt e t k f lie co ∧ (∀ k', absGet e.post.g k' = none) ∧
+        a = (specDc f lie co (absGet e.pre.g k)).2.1 ∧ b = (specDc f lie co (absGet e.pre.g k)).2.2) ∨
+    (lie = true ∧ ∃ x, a = some x ∧ b = (!co) ∧
+      ((∃ st ∈ trace p s0 mid, absGet st.g k = some x) ∨
+       (∃ e ∈ events p s0 mid, ∃ u f' lie' co', HelpAt e u k f' lie' co' ∧
+          some x = (specDc f' lie' co' (absGet e.pre.g k)).1))) :=
+  writer_linearizable p hmin pre mid s0 s' h0 h1 t k f lie co a b hstart hop hret hres
+
+/-- **linearizability of `Load`** (hindsight across table generations): the value a lookup returns was the abstract
+binding of its key in a state visited during the call, or the binding installed by a writer that a `Clear` issued
+during the call helped (the virtual instant between that writer's linearization and the `Clear`) -/
+theorem C03_C04_load_hindsight (hmin : 0 < p.minLen) (pre mid : List (Model.Proto.Tid × Choice K V))
+    (s0 s' : Model.Proto.St K V) (h0 : Model.Proto.run p (Model.Proto.init p) pre = some s0)
+    (h1 : Model.Proto.run p s0 mid = some s') (t : Model.Proto.Tid) (k : K) (v : Option V) (b : Bool)
+    (hstart : (s0.l t).pc = .ldTable)
+    (hop : (s'.l t).op = some (.load k)) (hret : (s'.l t).pc = .ret) (hres : (s'.l t).result = some (.val v b)) :
+    (∃ g ∈ (states p (pre ++ mid)).drop pre.length, absGet g k = v) ∨
+    (∃ e ∈ events p s0 mid, ∃ u f lie co, HelpAt e u k f lie co ∧ v = (specDc f lie co (absGet e.pre.g k)).1) :=
+  load_hindsight_states p hmin pre mid s0 s' h0 h1 t k v b hstart hop hret hres
+
+/-- the result of a call, once fixed at its linearization point, is what the call returns -/
+theorem C03_C04_result_stable (s : Model.Proto.St K V) (h : Reach p s) (t : Model.Proto.Tid)
+    (sched : List (Model.Proto.Tid × Choice K V)) (s' : Model.Proto.St K V)
+    (hf : fixedPc (s.l t) ∨ (s.l t).pc = .ret) (hr : Model.Proto.run p s sched = some s')
+    (hn : NoRet t (events p s sched)) :
+    (s'.l t).result = (s.l t).result ∧ (s'.l t).op = (s.l t).op :=
+  let r := result_stable p s s' h t hf sched hr hn
+  ⟨r.2.1, r.2.2⟩
+
+/-- `specDc` is the builtin map's `Compute` (and, with the flags of the other calls, `LoadOrStore`, `LoadAndStore`,
+`LoadAndDelete`): new binding, returned value and flag agree with `Spec.AMap` -/
+theorem specDc_is_AMap_compute [Inhabited V] (m : Spec.AMap K V) (k : K) (f : Option V → V × Bool) :
+    ((Spec.AMap.compute m k f).1.get k = (specDc f false true (m.get k)).1) ∧
+    ((Spec.AMap.compute m k f).2.2 = (specDc f false true (m.get k)).2.2) ∧
+    ((Spec.AMap.compute m k f).2.1 = ((specDc f false true (m.get k)).2.1).getD default) := by
+  unfold Spec.AMap.compute specDc
+  cases hg : m.get k with
+  | none =>
+    by_cases hd : (f none).2 = true <;> simp [hd, hg, Spec.AMap.get_set]
+  | some old =>
+    by_cases hd : (f (some old)).2 = true <;> simp [hd, Spec.AMap.get_set, Spec.AMap.get_erase]
+
+/-- non-vacuity: a concrete run meets every hypothesis of `C03_C04_writer_linearizable` (a `Store(1, 5)` on the empty
+map, started at the end of `pre`, returning at the end of `mid`) -/
+def exP : Model.Proto.Params Nat := { growThr := fun n => n * 9 / 4, shrinkThr := fun n => n * 3 / 128, bkt := fun _ k => k, minLen := 2, growOnly := false }
+
+example : ∃ (s0 s' : Model.Proto.St Nat Nat),
+    Model.Proto.run exP (Model.Proto.init exP)
+      [(0, { op := some (.dc 1 (fun _ => (5, false)) false false) })] = some s0 ∧
+    Model.Proto.run exP s0 (List.replicate 10 (0, {})) = some s' ∧
+    (s0.l 0).pc = .dcLoadTable ∧ (s'.l 0).pc = .ret ∧ (s'.l 0).result = some (.val (some 5) false) ∧
+    absGet s'.g 1 = some 5 := ⟨_, _, rfl, rfl, rfl, rfl, rfl, rfl⟩
 
 end proto
 
